@@ -111,11 +111,15 @@ def _uloop_class():
                     return
                 self.cycle += 1
                 if self.cycle > self.budget:
+                    # stop the loop; asyncio.Runner then cancels what is left and runs the loop again, which must
+                    # not be allowed to block for ever either (a host that is never woken): keep ticking and stop
+                    # that teardown too once it has had its allowance
                     self.failed = "budget"
-                    self._ticking = False
+                    self.budget = self.cycle + 300
                     self.stop()
+                    self.call_soon(self._tick)
                     return
-                if self.monitor is not None:
+                if self.monitor is not None and self.failed is None:
                     self.monitor(self)
                 self.call_soon(self._tick)
 
@@ -168,7 +172,7 @@ def run_on(config: str, main, *, monitor=None, budget: int = 20000):
         try:
             return await main(loop)
         finally:
-            if config == "U":
+            if config == "U" and loop.failed is None:
                 loop._ticking = False
 
     try:
